@@ -321,3 +321,23 @@ Definition meta_affected_level_tiles (g : grid) (msx msy : Z) (b : bbox) (l : Z)
     let ab := merge_bbox (tile_bbox g x_first y_last l) (tile_bbox g (x_last + mx - 1) (y_first + my - 1) l) in
     Affected ab (Z.of_nat (length xs)) (Z.of_nat (length ys)) (create_tile_list xs ys l (grid_size g l))
   end.
+
+(* ---- grids built from the configuration (config/loader.py GridConfiguration.tile_grid) *)
+(* GlobalConfiguration.get_value(key, local, global_key): the grid's own option, else the option under globals, else the
+   built-in default *)
+Definition conf_value {A : Type} (loc glob : option A) (dflt : A) : A :=
+  match loc with Some v => v | None => match glob with Some v => v | None => dflt end end.
+(* `base`: conf = base.conf.copy(); conf.update(self.conf) *)
+Definition conf_inherit {A : Type} (own base : option A) : option A :=
+  match own with Some v => Some v | None => base end.
+(* the double 1.15 (default image.stretch_factor) as a rational; default image.max_shrink_factor 4.0; grid.tile_size 256 *)
+Definition default_stretch : Z * Z := (5179139571476071, 4503599627370496).
+Definition default_shrink : Z * Z := (4, 1).
+Definition default_tile_size : Z * Z := (256, 256).
+(* stretch_factor = get_value('stretch_factor', conf, global_key='image.stretch_factor'), the same for
+   max_shrink_factor ('image.max_shrink_factor') and tile_size ('grid.tile_size'); g0 carries bbox, res, origin *)
+Definition configured_grid (g0 : grid) (sf_loc sf_glob shr_loc shr_glob ts_loc ts_glob : option (Z * Z)) : grid :=
+  let sf := conf_value sf_loc sf_glob default_stretch in
+  let shr := conf_value shr_loc shr_glob default_shrink in
+  let ts := conf_value ts_loc ts_glob default_tile_size in
+  mkGrid (gx0 g0) (gy0 g0) (gx1 g0) (gy1 g0) (fst ts) (snd ts) (ress g0) (ul g0) (fst sf) (snd sf) (fst shr) (snd shr).
